@@ -30,6 +30,15 @@ var recEnqCount int
 // noteEnq: set per episode; told the payload of every job offered to a recording queue and the answer
 var noteEnq func(data int, ok bool)
 
+// notePurged: set per episode; told the payload of every job a Purge took out of a recording queue
+var notePurged func(data int)
+
+func tellPurged(item any) {
+	if j, isJob := item.(interface{ Data() int }); isJob && notePurged != nil {
+		notePurged(j.Data())
+	}
+}
+
 func tellEnq(item any, ok bool) {
 	if j, isJob := item.(interface{ Data() int }); isJob && noteEnq != nil {
 		noteEnq(j.Data(), ok)
@@ -77,6 +86,7 @@ func (q recQ) PurgeValues() []any {
 	vt.Mark("q:purge", nil, q.id+" "+strconv.Itoa(len(vs)))
 	for _, v := range vs {
 		vt.Mark("q:purged", v, q.id)
+		tellPurged(v)
 	}
 	return vs
 }
@@ -118,6 +128,7 @@ func (q recPQ) PurgeValues() []any {
 	vt.Mark("q:purge", nil, q.id+" "+strconv.Itoa(len(vs)))
 	for _, v := range vs {
 		vt.Mark("q:purged", v, q.id)
+		tellPurged(v)
 	}
 	return vs
 }
